@@ -149,6 +149,12 @@ func (t *SimToken) perform(ctx context.Context, seq int, out TokOutcome, key str
 		err = Retryable{"simulated transient token failure"}
 	case "usage":
 		err = token.KeyUsageError{Key: key, Err: errors.New("simulated: key does not permit this operation")}
+	case "usage-pkcs11":
+		// a key-usage error whose cause is a (user-level) PKCS#11 code
+		err = token.KeyUsageError{Key: key, Err: pkcs11.Error(pkcs11.CKR_KEY_FUNCTION_NOT_PERMITTED)}
+	case "usage-pkcs11-fatal":
+		// ... and one whose cause is a code that, on its own, means the session is gone
+		err = token.KeyUsageError{Key: key, Err: pkcs11.Error(pkcs11.CKR_GENERAL_ERROR)}
 	case "notimpl":
 		err = token.NotImplementedError{Op: "sign", Type: SimTokenType}
 	case "pkcs11-fatal":
